@@ -180,7 +180,8 @@ def run_case(case, cx):
         return
     if not case["target_used"]:
         if r.rc != base.rc or r.out != base.out:
-            if not any(n.startswith("var") for n in used) and only_vars_reported(r.text()):
+            vnames = set(v["name"] for mm in (m, m2) for v in mm["vars"])
+            if not any(n.startswith("var") for n in used) and only_vars_reported(r.text(), vnames):
                 cx.violation(UNUSED_VARS, det)
                 return
             cx.violation("change-outside-used-set-alters-verdict", det)
@@ -213,7 +214,7 @@ def run_case(case, cx):
             cx.violation("weak-mode-report-does-not-name-the-used-interface", dict(det, weak=w.brief()))
 
 
-def only_vars_reported(text):
-    """Every [D]/[A]/[C] entry of the report is about a variable."""
+def only_vars_reported(text, vnames):
+    """Every [D]/[A]/[C] entry of the report is about a variable of the model."""
     ents = [l for l in text.split("\n") if l.startswith("  [")]
-    return bool(ents) and all(("var" in e and "fn" not in e) for e in ents)
+    return bool(ents) and all(any(pairs.mentions([e], v) for v in vnames) for e in ents)
